@@ -3,7 +3,7 @@ import base64, hashlib, json, urllib.parse
 from vlib import common, coq, gobuild, gw, s3c, e2e, chunkenc
 from vlib.common import coq_str, coq_list, coq_bool
 
-THEOREMS = ["C01_read_back_partial", "C01_get_is_pure"]
+THEOREMS = ["C01_read_back_partial", "C01_directory_object_read_back", "C01_get_is_pure"]
 TARGETS = ["Properties/C01.vo", "Check/PosixCheck.vo"]
 LENS = [0, 1, 5, 100, 3000, 4097, 32768, 65537, 70001]
 CONFIGS = [("xattr+otmp", {"iam": False}), ("xattr+named-temp", {"iam": False, "otmp": False}), ("sidecar", {"iam": False, "meta": "sidecar"}),
@@ -277,6 +277,28 @@ def spec_readback(chk, gwbin, label, cfg, n_ops):
                     readback(cls[rd], k2, e2, how, e2["body"], e2["meta"], e2["tags"], e2["content"], note=", followed by a %s upload refused with %d %s" % (how, rr.status, rr.code))
                 elif rr.status == 200:
                     state.pop(k2, None)       # not refused after all (nothing claimed about it here)
+        # directory objects (keys ending in "/", empty body): the user metadata read back is the metadata of the last acknowledged
+        # upload, not a mixture with what an earlier upload of the same key supplied
+        for dk in ("dirobj/", "dirobj/nested/"):
+            seq = [rnd.choice(meta_sets[1:]) for _ in range(3)] + [{}]
+            for j, md in enumerate(seq):
+                w, rd = rnd.randrange(2), rnd.randrange(2)
+                r = cls[w].req("PUT", "/bk1/" + dk, body=b"", headers={"x-amz-meta-" + k: v for k, v in md.items()})
+                chk.count("%s:upload:dirobj:%d" % (label, r.status))
+                if r.status != 200:
+                    if r.status >= 500:
+                        chk.fail("c01:upload-5xx:dirobj", "a valid PutObject of the directory object %r answered %d %s (%s)" % (dk, r.status, r.code, label), {"config": label, "key": dk, "status": r.status})
+                    continue
+                h_ = cls[rd].req("HEAD", "/bk1/" + dk); g_ = cls[rd].req("GET", "/bk1/" + dk)
+                gm = {k.lower(): v for k, v in e2e.meta_of(h_.headers).items()} if h_.status == 200 else None
+                gm2 = {k.lower(): v for k, v in e2e.meta_of(g_.headers).items()} if g_.status == 200 else None
+                want = {k.lower(): v for k, v in md.items()}
+                chk.case(("spec-dirobj", label, dk, j, tuple(sorted(md))), True); chk.traces += 1
+                if gm != want or gm2 != want or g_.body != b"":
+                    chk.fail("c01:readback:%s:dirobj-metadata" % label.split("+")[0], "after %d acknowledged uploads of the directory object %r (user metadata %r, the last one %r) in configuration %s, "
+                             "HEAD reads back %r and GET %r" % (j + 1, dk, seq[:j + 1], md, label, gm, gm2),
+                             {"config": label, "key": dk, "uploads": seq[:j + 1], "head_meta": gm, "get_meta": gm2})
+                    break
         chk.tie("gateways still running (%s)" % label, all(g.alive() for g in gws), gws[0].log_tail())
 
 
